@@ -13,9 +13,11 @@
   exactly as `C01_adj_cholesky` does:
     gso : `Gso.Unambiguous` (every norm the run compares with the tolerance is 0 or above it);
     svd : the factors `Svd.decompose` (the transliterated `SVD::svd()`) returns on that system
-          satisfy the certificate `SvdCert` at the model's own tolerance `Svd.wTol` — the per-run
-          certificate tools/props/svd_cert.py checks numerically; convergence/accuracy of the
-          Golub–Reinsch iteration is NOT proved (see Props/C01/Svd.lean).
+          satisfy the certificate `SvdCert` at the model's own tolerance `Svd.wTol`.  The
+          algebraic part of that certificate is proved for `Svd.decompose` (Props/C01/SvdDecomp.lean:
+          `C01_svd_solve_decompose`, `C01_adj_svd_decompose` are the theorems below with `SvdCert`
+          weakened to `Unambiguous` of the returned singular values); convergence of the QR
+          iteration (= that `decompose` returns) is NOT proved.
 -/
 import Gama.Props.C01.Adj
 import Gama.Props.C01.Gso
@@ -86,7 +88,10 @@ example : ∃ a, adjSolve .gso (Ex.pCS ℝ) = .ok a ∧
   exact ⟨a, h, C01_adj_gso (Ex.pCS ℝ) (by decide) Ex.pCS_rows (Ex.PCS ℝ) Ex.pCS_weight
     Ex.pCS_gso_unambiguous a h⟩
 
-/-- non-vacuity of `C01_adj_svd_cert` over ℝ (`Real.sqrt`) — complete EXCEPT for one evaluation.
+/-- non-vacuity of `C01_adj_svd_cert` over ℝ (`Real.sqrt`), here conditional on one evaluation that
+    is now PROVED elsewhere: `Svd.decompose 3 2 A_dot = .ok Ex.dCV` over ℝ is `Ex.pCV_decompose`
+    (Lemmas/Ls/SvdDecompWitness.lean, the run evaluated statement by statement), and the
+    UNCONDITIONAL instance is the last example of Props/C01/SvdDecomp.lean (which imports this file).
     `Ex.pCV`: the same covariance (correlated block `[[4,2],[2,10]]` + variance 4),
     A = [[12,16],[15,20],[12,16]] (rank 1, kernel (4,−3), defect 1), S = {1}.  Shown over ℝ:
     dimensions, rows, weight matrix, `RegOK`; `homogenise` returns `A_dot = [[6,8],[3,4],[6,8]]`,
@@ -94,12 +99,10 @@ example : ∃ a, adjSolve .gso (Ex.pCS ℝ) = .ok a ∧
     system at the model's own tolerance `Svd.wTol`; the post-decomposition model answers with
     x = (0, 1/8), defect 1; and IF `Svd.decompose 3 2 A_dot = .ok Ex.dCV` over ℝ, THEN the hypothesis
     `hc` holds and `adjSolve .svd Ex.pCV = .ok a` with x = (0, 1/8), defect 1.
-    MISSING: `Svd.decompose 3 2 A_dot = .ok Ex.dCV` over ℝ itself.  The transliterated Golub–Reinsch
-    iteration (a 250-line `do` block with nested loops) could not be evaluated symbolically over ℝ
-    (`simp`/`norm_num` blow up already on a 1×1 matrix); it IS evaluated by the kernel over ℚ with
-    a square root exact on the four values the run takes roots of (9/25, 1, 625/576, 25/16) and
-    returns exactly `Ex.dCV` (last conjunct) — all other operations of the run are field operations
-    and comparisons on rationals, which agree in ℚ and ℝ. -/
+    The premise of the implication is kept here as a premise only because this file is imported by
+    the file that proves it.  Independently, the run IS evaluated by the kernel over ℚ with a square
+    root exact on the four values it takes roots of (9/25, 1, 625/576, 25/16) and returns exactly
+    `Ex.dCV` (last conjunct). -/
 example : (dimsOf Ex.pCV).sum = Ex.pCV.m ∧ RowsOK Ex.pCV ∧ Ex.pCV.C * Ex.PCV = 1 ∧ Svd.RegOK Ex.pCV.reg
     ∧ homogenise Ex.pCV = .ok (#[#[6, 8], #[3, 4], #[6, 8]], #[1/2, 1/2, 3/2])
     ∧ Svd.SvdCert Real.sqrt (Svd.wTol : ℝ) 3 2 (#[#[6, 8], #[3, 4], #[6, 8]] : DMat ℝ) Ex.dCV
@@ -117,7 +120,7 @@ example : (dimsOf Ex.pCV).sum = Ex.pCV.m ∧ RowsOK Ex.pCV ∧ Ex.pCV.C * Ex.PCV
   exact ⟨by decide, Ex.pCV_rows, Ex.pCV_weight, List.nodup_singleton 1, Ex.pCV_homogenise, Ex.dCV_cert,
     ⟨s, hs, hx, hd⟩, fun hdec => ⟨Ex.pCV_hc hdec, Ex.pCV_adj_svd hdec⟩, Ex.dCV_decompose_rat⟩
 
-/-- the theorem applied to the instance (under the same missing evaluation): the answer of
+/-- the theorem applied to the instance (premise = `Ex.pCV_decompose`, see above): the answer of
     `Adj` + svd on `Ex.pCV` is a least-squares solution of the original weighted problem -/
 example (hdec : Svd.decompose 3 2 (#[#[6, 8], #[3, 4], #[6, 8]] : DMat ℝ) = .ok Ex.dCV) :
     ∃ a, adjSolve .svd Ex.pCV = .ok a ∧
